@@ -25,6 +25,8 @@ pub struct ModelServer {
     pub framing: Framing,
     pub units: BTreeMap<u8, UnitState>,
     pub auth: Option<AuthModel>,
+    /// unit ids answered by the handler instance of another unit: alias id -> owner id
+    pub aliases: BTreeMap<u8, u8>,
 }
 
 /// One allowed behaviour for a frame
@@ -88,7 +90,7 @@ impl ModelServer {
     pub fn judge(&self, addr: u8, pdu: &[u8]) -> Verdict {
         let class = classify_request(pdu);
         let broadcast = self.framing == Framing::Rtu && addr == 0;
-        let configured = !broadcast && self.units.contains_key(&addr);
+        let configured = !broadcast && (self.units.contains_key(&addr) || self.aliases.contains_key(&addr));
         let mut labels: Vec<&'static str> = Vec::new();
         if broadcast {
             labels.push("broadcast");
@@ -232,6 +234,15 @@ impl ModelServer {
                 let (call, _res) = apply_write(*u, st, req);
                 calls.push(call);
             }
+            // once per configured unit id: a handler instance serving several ids sees it once
+            // for each of them
+            for owner in self.aliases.values() {
+                let (call, _res) = apply_write(*owner, units_after.get_mut(owner).unwrap(), req);
+                calls.push(call);
+            }
+            if !self.aliases.is_empty() {
+                labels.push("broadcast:shared_handler");
+            }
             return vec![Outcome {
                 calls: ExpectCalls::Exactly(calls),
                 units_after,
@@ -243,6 +254,11 @@ impl ModelServer {
             return vec![base];
         }
 
+        // the handler (and its unit label in the call log) behind this unit id
+        let addr = self.aliases.get(&addr).copied().unwrap_or(addr);
+        if self.aliases.values().any(|o| *o == addr) {
+            labels.push("unit:shared_handler");
+        }
         let st = &self.units[&addr];
         match req {
             ValidReq::Read { kind, start, count } => {
